@@ -146,6 +146,8 @@ def _gt_guard(test, cand_src, stored_src):
     return False
 
 
+
+
 def r2(ctx):
     repo = ctx.repo
     cls = repo.cls('assembly', 'Assembly')
@@ -253,12 +255,12 @@ def r2(ctx):
                     ex = U.value_at(fi.node, idx, st.lineno,
                                     keep=tuple(keep))
                     ok = _right_aligned_terms(ex, cand)
-        # decided on the *value* of the index at the store (locals expanded
-        # flow-sensitively), so `first = len(..) - n; ... [first + i]` and
-        # `idx = len(..) - n + i; ... [idx]` are the same index
-        d = U.value_at(fi.node, idx, st.lineno, keep=tuple(
-            x.id for x in ast.walk(cand) if isinstance(x, ast.Name)))
-        ok = const(d) == -1 or _right_aligned(d, cand)
+        if not ok:
+            # decided on the *value* of the index at the store (locals
+            # expanded flow-sensitively)
+            d2 = U.value_at(fi.node, idx, st.lineno, keep=tuple(
+                x.id for x in ast.walk(cand) if isinstance(x, ast.Name)))
+            ok = const(d2) == -1 or _right_aligned(d2, cand)
         ctx.require(ok, 'C15.R2', fi, st,
                     "writer must index _peak['duct'] right-aligned "
                     '(-1 or len(_peak[duct]) - n + i)',
